@@ -337,8 +337,49 @@ class World:
             conn.set_hold(False)
         elif kind == 'clock_jump':
             self.clock.now += float(fault.get('dt', 1.0))
+        elif kind == 'deliver':
+            self.deliver(fault['data'], fault.get('mailbox', 'INBOX'),
+                         fault.get('user'), fault.get('subdir', 'new'),
+                         fault.get('info', ''))
         else:
             raise HarnessError('unknown fault kind %r' % kind)
+
+    # ---- the delivery agent (maildir only) ----------------------------------
+
+    def deliver(self, data: str, mailbox: str = 'INBOX',
+                user: str | None = None, subdir: str = 'new',
+                info: str = '') -> bool:
+        """What an MDA does behind the server's back: write the message
+        under tmp/ of the folder and rename it into new/ (or cur/ with an
+        info suffix).  Goes through SimFS, so it is logged, carries virtual
+        mtimes and is a crash point like any other mutation.  Only INBOX and
+        top-level folders that already exist; returns False otherwise."""
+        if self.fs is None:
+            return False
+        name = user or self.users[0]['name']
+        rec = next((u for u in self.users if u['name'] == name), None)
+        if rec is None:
+            return False
+        home = os.path.join(self.scratch, 'base',
+                            rec.get('mailbox_path', name))
+        if mailbox.upper() == 'INBOX':
+            folder = home
+        elif self.cfg.get('layout', '++') == '++':
+            folder = os.path.join(home, '.' + mailbox)
+        else:
+            folder = os.path.join(home, mailbox)
+        if not all(os.path.isdir(os.path.join(folder, sub))
+                   for sub in ('tmp', 'new', 'cur')):
+            return False
+        self._delivered = getattr(self, '_delivered', 0) + 1
+        base = '%d.M%dP1.mda' % (int(self.clock.now), self._delivered)
+        tmp = os.path.join(folder, 'tmp', base)
+        with self.fs.open(tmp, 'wb') as fp:
+            fp.write(data.encode('latin-1'))
+        final = base if subdir == 'new' else base + ':2,' + info
+        self.fs.os.rename(tmp, os.path.join(folder, subdir, final))
+        self.log('deliver', name, mailbox, subdir, final)
+        return True
 
     # ---- teardown -----------------------------------------------------------
 
